@@ -53,9 +53,10 @@ Lemma gen_loop_scopes : forall evs, In evs [Gen.Restrict.gen_formula_loop; Gen.R
       /\ (forall x j, In (x, j) bs <-> j = k /\ In x sample /\ ~ In x bl).
 Proof.
   intros evs Hin sample bl n.
-  assert (evs = loop_events).
-  { destruct loops_bridge as [H1 [H2 H3]]. simpl in Hin. destruct Hin as [H|[H|[H|[]]]]; congruence. }
-  subst. apply (loop_scopes sample bl n 0%nat []). intros x j [].
+  assert (Hs : source_loop evs).
+  { destruct loops_bridge as [H1 [H2 H3]]. simpl in Hin. unfold source_loop.
+    destruct Hin as [H|[H|[H|[]]]]; [left | right | left]; congruence. }
+  apply (loop_scopes evs Hs sample bl n 0%nat []). intros x j [].
 Qed.
 
 Lemma gen_blacklists : forall instr sample sib n,
